@@ -488,6 +488,8 @@ def run(ctx):
     D.loops_visit_all(ctx, "R-C12.12", only=("recovery::recover_keyspaces", "keyspace::Keyspace::inner_rotate_memtable", "db::Database::recover"))
 
     # ---- borrowed obligations (mechanisms owned by other properties that this property's verdict also rests on)
+    # records of a deleted keyspace are skipped one by one: replay looks the keyspace up per record, a handle is never carried over
+    ctx.borrow("C04", ["R-C04.14"], "R-C12.16")
     # a transaction's write to one keyspace is never dropped because of what it wrote to another
     ctx.borrow("C08", ["R-C08.4"], "R-C12.15")
 
